@@ -59,6 +59,9 @@ def signature(path, keep_raise_args=False, ignore_attr_stores=(),
                 and l[3] == ('const', None))
     effects = []
     for e in path.trace:
+        if e[0] == 'assigned-call':
+            effects.append(('pending', e[1]))
+            continue
         if e[0] == 'store':
             if e[1][0] == 'attr' and e[1][2] in ignore_attr_stores:
                 continue
@@ -76,6 +79,8 @@ def signature(path, keep_raise_args=False, ignore_attr_stores=(),
             effects.append(('do', demsg(k)))
         elif e[0] == 'del':
             effects.append(('del', e[1]))
+        elif e[0] == 'inplace':
+            effects.append(('inplace', e[1], e[2], e[3]))
         elif e[0] == 'aug':
             pass  # covered by the store / env value
         elif e[0] == 'loop':
@@ -84,6 +89,22 @@ def signature(path, keep_raise_args=False, ignore_attr_stores=(),
                 effects.append(('loop', e[1], ls))
         elif e[0] in ('except', 'caught'):
             effects.append((e[0], e[1] if e[0] == 'except' else e[2]))
+    if any(x[0] == 'pending' for x in effects):
+        # a call whose value was bound to names nothing reads (in what is
+        # compared: conditions, outcome, effects) was made for its effect
+        want = set(x[1] for x in effects if x[0] == 'pending')
+        used = set()
+        stack = list(conds) + [out] + [x for x in effects
+                                       if x[0] != 'pending']
+        while stack and want - used:
+            x = stack.pop()
+            if not isinstance(x, (tuple, frozenset)):
+                continue
+            if x in want:
+                used.add(x)
+            stack.extend(y for y in x if isinstance(y, (tuple, frozenset)))
+        effects = [('do', demsg(x[1])) if x[0] == 'pending' else x
+                   for x in effects if x[0] != 'pending' or x[1] not in used]
     return (frozenset(conds), out, _order_stores(effects))
 
 
@@ -136,6 +157,8 @@ def _loop_sig(body_events, strict=False):
                 pass    # the store event carries the same information
             elif e[0] == 'del':
                 ev.append(('del', e[1]))
+            elif e[0] == 'inplace':
+                ev.append(('inplace', e[1], e[2], e[3]))
             elif e[0] in ('except', 'caught'):
                 ev.append((e[0], e[1] if e[0] == 'except' else e[2]))
             elif e[0] == 'loop':
@@ -153,136 +176,8 @@ def _loop_sig(body_events, strict=False):
         return frozenset(out)
 
 
-class _TooBig(Exception):
-    pass
-
-
-class BDD(object):
-    """Reduced ordered binary decision diagrams over predicate atoms; a node
-    is True, False or (atom, low, high) with atoms ordered by their repr --
-    the tuple itself is the canonical form of the boolean function."""
-
-    LIMIT = 200000
-
-    def __init__(self):
-        self.memo = {}
-        self.rk = {}
-
-    def rank(self, atom):
-        r = self.rk.get(atom)
-        if r is None:
-            r = self.rk[atom] = repr(atom)
-        return r
-
-    def mk(self, atom, lo, hi):
-        return lo if lo == hi else (atom, lo, hi)
-
-    def neg(self, u):
-        if u is True or u is False:
-            return not u
-        k = ('neg', u)
-        r = self.memo.get(k)
-        if r is None:
-            r = self.memo[k] = self.mk(u[0], self.neg(u[1]), self.neg(u[2]))
-        return r
-
-    def apply(self, op, u, v):
-        if op == 'and':
-            if u is False or v is False:
-                return False
-            if u is True:
-                return v
-            if v is True:
-                return u
-        else:
-            if u is True or v is True:
-                return True
-            if u is False:
-                return v
-            if v is False:
-                return u
-        if u == v:
-            return u
-        k = (op, u, v)
-        r = self.memo.get(k)
-        if r is not None:
-            return r
-        if len(self.memo) > self.LIMIT:
-            raise _TooBig()
-        ru, rv = self.rank(u[0]), self.rank(v[0])
-        if ru == rv:
-            r = self.mk(u[0], self.apply(op, u[1], v[1]),
-                        self.apply(op, u[2], v[2]))
-        elif ru < rv:
-            r = self.mk(u[0], self.apply(op, u[1], v), self.apply(op, u[2], v))
-        else:
-            r = self.mk(v[0], self.apply(op, u, v[1]), self.apply(op, u, v[2]))
-        self.memo[k] = r
-        return r
-
-    def of(self, k):
-        """BDD of a boolean key."""
-        if k[0] == 'const':
-            return bool(k[1])
-        if k[0] == 'not':
-            return self.neg(self.of(k[1]))
-        if k[0] in ('and', 'or'):
-            r = (k[0] == 'and')
-            for x in k[1]:
-                r = self.apply(k[0], r, self.of(x))
-            return r
-        a, pol = sym.atom_of(k)
-        n = (a, False, True)
-        return n if pol else self.neg(n)
-
-
-def _eq_atoms(sigs, eqs):
-    for conds, out, eff in sigs:
-        for lit in conds:
-            for at in sym.bool_atoms(lit):
-                if at[0] == 'cmp' and at[1] == '==':
-                    a, b = at[2]
-                    for term, c in ((a, b), (b, a)):
-                        if c[0] in ('const', 'num') and term[0] not in (
-                                'const', 'num'):
-                            eqs.setdefault(term, set()).add((c, at))
-
-
-def _care(bdd, eqs):
-    """One term cannot equal two different constants: decisions are compared
-    on the assignments where that holds."""
-    care = True
-    for term, alts in sorted(eqs.items(), key=repr):
-        alts = sorted(alts, key=repr)
-        for i in range(len(alts)):
-            for j in range(i + 1, len(alts)):
-                if alts[i][0] != alts[j][0]:
-                    both = bdd.apply('and', bdd.of(alts[i][1]),
-                                     bdd.of(alts[j][1]))
-                    care = bdd.apply('and', care, bdd.neg(both))
-    return care
-
-
-def canon(sigs, bdd=None, care=None):
-    """Canonical form of a set of path signatures: for every (outcome,
-    effects) the boolean function (as a reduced ordered BDD) of the
-    conditions under which it is reached.  Independent of how a decision is
-    spelled: nested ifs or one conjunction, elif chain or early returns, De
-    Morgan forms, a predicate inlined or extracted, redundant tests."""
-    bdd = bdd or BDD()
-    if care is None:
-        eqs = {}
-        _eq_atoms(sigs, eqs)
-        care = _care(bdd, eqs)
-    by = {}
-    for conds, out, eff in sigs:
-        cube = True
-        for lit in sorted(conds, key=repr):
-            cube = bdd.apply('and', cube, bdd.of(lit))
-        by[(out, eff)] = bdd.apply('or', by.get((out, eff), False), cube)
-    if care is not True:
-        by = dict((oe, bdd.apply('and', f, care)) for oe, f in by.items())
-    return frozenset((oe, f) for oe, f in by.items() if f is not False)
+from .bdd import (_TooBig, BDD, STR_PREDICATES, _str_facts, _eq_atoms,
+                  _care, canon)
 
 
 def equivalent(a, b):
@@ -294,7 +189,7 @@ def equivalent(a, b):
         eqs = {}
         _eq_atoms(a, eqs)
         _eq_atoms(b, eqs)
-        care = _care(bdd, eqs)
+        care = bdd.apply('and', _care(bdd, eqs), _str_facts(bdd, a | b))
         return canon(a, bdd, care) == canon(b, bdd, care)
     except (_TooBig, RecursionError):
         return False
@@ -344,6 +239,8 @@ def _show_eff(x):
         return sym.show(x[1])
     if x[0] == 'loop':
         return 'loop over %s' % sym._show_gens(x[1])
+    if x[0] == 'inplace':
+        return '%s %s= %s (in place)' % (sym.show(x[1]), x[2], sym.show(x[3]))
     return str(x[0])
 
 
